@@ -18,8 +18,7 @@ CONSTANTS
   MaxStops = 1
   MaxExpire = 2
   IgnoredStarts = TRUE
-  RaceFinder = FALSE
-  RaceBuffer = FALSE
+  PreRepair = FALSE
 VIEW view
 INVARIANTS DeliveredAscending Outcome AncestorCommon NeverBeyondTarget PeerConservation ConnQueueSane HashReqSane NoActorBlock Restartable
 CHECK_DEADLOCK FALSE
